@@ -12,6 +12,9 @@
 package main
 
 import (
+	"bufio"
+	"hash/crc32"
+	"io"
 	"bytes"
 	"context"
 	"crypto/tls"
@@ -2336,6 +2339,308 @@ func genScenario(rng *hx.Rand, i int, thorough bool) *scenario {
 	return sc
 }
 
+// rawKeepalive: a hand-made TCP reader PLAYs a stream over the interleaved connection and, while the packets flow,
+// keeps sending keep-alive requests (GET_PARAMETER / OPTIONS) as fast as they are answered - what every RTSP-over-TCP
+// player does, only far more often. The responses are written by the connection's goroutine, the frames by the session's
+// writer goroutine: on the wire every interleaved frame must stay ONE unit ('$', channel, length, exactly length payload
+// bytes), responses may appear between frames only, every RTP packet the stream accepted arrives once, intact, in order.
+func rawKeepalive(ctx *hx.Ctx, useTLS bool, seed uint64) {
+	name := fmt.Sprintf("raw-keepalive tls=%v seed=%d", useTLS, seed)
+	rng := hx.NewRand(seed)
+	h := &handler{sessIdx: map[*gortsplib.ServerSession]int{}}
+	srv, port, err := startServer(rng, h, 512, false, useTLS)
+	if err != nil {
+		ctx.Failf(-1, "scenario-setup-failed", name, "server start: %v", err)
+		return
+	}
+	defer srv.Close()
+	desc := mkDesc([]int{1})
+	stream := &gortsplib.ServerStream{Server: srv, Desc: desc}
+	if err := stream.Initialize(); err != nil {
+		ctx.Failf(-1, "scenario-setup-failed", name, "stream: %v", err)
+		return
+	}
+	defer stream.Close()
+	h.mu.Lock()
+	h.stream = stream
+	h.mu.Unlock()
+	var nc net.Conn
+	nc, err = net.DialTimeout("tcp", "127.0.0.1:"+strconv.Itoa(port), 3*time.Second)
+	if err == nil && useTLS {
+		tc := tls.Client(nc, &tls.Config{InsecureSkipVerify: true})
+		if err = tc.Handshake(); err == nil {
+			nc = tc
+		}
+	}
+	if err != nil {
+		ctx.Failf(-1, "scenario-setup-failed", name, "dial: %v", err)
+		return
+	}
+	defer nc.Close()
+	scheme := "rtsp"
+	prof := "RTP/AVP/TCP"
+	if useTLS {
+		scheme = "rtsps"
+	}
+	url := fmt.Sprintf("%s://127.0.0.1:%d/s?r=0", scheme, port)
+	br := bufio.NewReaderSize(nc, 1<<16)
+	readResp := func() (int, string, error) { // status, Session id
+		nc.SetReadDeadline(time.Now().Add(5 * time.Second))
+		status, sess, clen := 0, "", 0
+		first := true
+		for {
+			l, err := br.ReadString('\n')
+			if err != nil {
+				return 0, "", err
+			}
+			l = strings.TrimRight(l, "\r\n")
+			if first {
+				fmt.Sscanf(l, "RTSP/1.0 %d", &status)
+				first = false
+				continue
+			}
+			if l == "" {
+				break
+			}
+			if v, ok := strings.CutPrefix(l, "Session: "); ok {
+				sess = strings.SplitN(v, ";", 2)[0]
+			}
+			if v, ok := strings.CutPrefix(l, "Content-Length: "); ok {
+				clen, _ = strconv.Atoi(v)
+			}
+		}
+		if clen > 0 {
+			if _, err := io.ReadFull(br, make([]byte, clen)); err != nil {
+				return 0, "", err
+			}
+		}
+		return status, sess, nil
+	}
+	cseq := 0
+	send := func(method, u, extra string) {
+		cseq++
+		fmt.Fprintf(nc, "%s %s RTSP/1.0\r\nCSeq: %d\r\n%s\r\n", method, u, cseq, extra)
+	}
+	send("DESCRIBE", url, "")
+	if st, _, err := readResp(); err != nil || st != 200 {
+		ctx.Failf(-1, "scenario-setup-failed", name, "DESCRIBE: %d %v", st, err)
+		return
+	}
+	tr := prof + ";unicast;interleaved=0-1"
+	if useTLS {
+		// RTP/SAVP needs key management; a TLS reader may use plain RTP/AVP over the encrypted connection
+		tr = "RTP/AVP/TCP;unicast;interleaved=0-1"
+	}
+	send("SETUP", url+"/trackID=0", "Transport: "+tr+"\r\n")
+	st, sess, err := readResp()
+	if err != nil || st != 200 {
+		ctx.Kind("raw-keepalive:setup-refused")
+		return // e.g. the secure profile is mandatory: nothing to test on this carrier
+	}
+	send("PLAY", url, "Session: "+sess+"\r\n")
+	if st, _, err := readResp(); err != nil || st != 200 {
+		ctx.Failf(-1, "scenario-setup-failed", name, "PLAY: %d %v", st, err)
+		return
+	}
+	// reader: parse the byte stream
+	type res struct {
+		frames, responses int
+		bad               string
+		seqs              []uint16
+	}
+	done := make(chan res, 1)
+	var framesSeen atomic.Int64
+	respSeen := make(chan struct{}, 1024)
+	n := ctx.Budget(120000, 600000)
+	go func() {
+		var r res
+		defer func() { done <- r }()
+		for {
+			nc.SetReadDeadline(time.Now().Add(4 * time.Second))
+			b, err := br.Peek(1)
+			if err != nil {
+				return
+			}
+			if b[0] == '$' {
+				hd := make([]byte, 4)
+				if _, err := io.ReadFull(br, hd); err != nil {
+					return
+				}
+				ln := int(binary.BigEndian.Uint16(hd[2:]))
+				pl := make([]byte, ln)
+				if _, err := io.ReadFull(br, pl); err != nil {
+					return
+				}
+				if hd[1] != 0 {
+					continue // RTCP
+				}
+				var pkt rtp.Packet
+				if err := pkt.Unmarshal(pl); err != nil || len(pkt.Payload) < 8 || pkt.Payload[0] != 0xA5 {
+					r.bad = fmt.Sprintf("frame %d (channel %d, length %d) does not carry an RTP packet of the stream: %v; first bytes %q", r.frames, hd[1], ln, err, clipBytes(pl, 24))
+					return
+				}
+				// the payload is self-describing: its length and a checksum of its tail are written into it
+				want := int(binary.BigEndian.Uint16(pkt.Payload[1:3]))
+				if want != len(pkt.Payload) || crc32.ChecksumIEEE(pkt.Payload[7:]) != binary.BigEndian.Uint32(pkt.Payload[3:7]) {
+					r.bad = fmt.Sprintf("frame %d: RTP packet seq=%d arrived altered (payload %d bytes, its own header says %d)", r.frames, pkt.SequenceNumber, len(pkt.Payload), want)
+					return
+				}
+				r.frames++
+				r.seqs = append(r.seqs, pkt.SequenceNumber)
+				framesSeen.Add(1)
+				continue
+			}
+			if b[0] == 'R' {
+				l, err := br.ReadString('\n')
+				if err != nil {
+					return
+				}
+				if !strings.HasPrefix(l, "RTSP/1.0 ") {
+					r.bad = fmt.Sprintf("after %d frames: a line that is neither a frame nor a response: %q", r.frames, clipBytes([]byte(l), 40))
+					return
+				}
+				for {
+					l, err := br.ReadString('\n')
+					if err != nil {
+						return
+					}
+					if l == "\r\n" {
+						break
+					}
+				}
+				r.responses++
+				select {
+				case respSeen <- struct{}{}:
+				default:
+				}
+				continue
+			}
+			pk, _ := br.Peek(24)
+			r.bad = fmt.Sprintf("after %d frames and %d responses: byte %#x where a frame or a response must start (%q)", r.frames, r.responses, b[0], clipBytes(pk, 24))
+			return
+		}
+	}()
+	// keep-alives, one outstanding at a time
+	stopKA := make(chan struct{})
+	kaDone := make(chan int, 1)
+	go func() {
+		k := 0
+		defer func() { kaDone <- k }()
+		for {
+			select {
+			case <-stopKA:
+				return
+			default:
+			}
+			m := "GET_PARAMETER"
+			if k%3 == 0 {
+				m = "OPTIONS"
+			}
+			send(m, url, "Session: "+sess+"\r\n")
+			k++
+			select {
+			case <-respSeen:
+			case <-stopKA:
+				return
+			case <-time.After(3 * time.Second):
+				return
+			}
+		}
+	}()
+	// the writer: flow-controlled by the queue (a full queue is waited out, never counted as a loss)
+	accepted := 0
+	full, stuckFull := false, false
+	h.curFull = nil
+	sent := make([]uint16, 0, n)
+	seq := uint16(rng.U64())
+	for i := 0; i < n; i++ {
+		sz := 8 + rng.Intn(1400)
+		pl := rng.Bytes(sz)
+		pl[0] = 0xA5
+		binary.BigEndian.PutUint16(pl[1:3], uint16(sz))
+		binary.BigEndian.PutUint32(pl[3:7], crc32.ChecksumIEEE(pl[7:]))
+		pkt := &rtp.Packet{Header: rtp.Header{Version: 2, PayloadType: 96, SequenceNumber: seq, Timestamp: uint32(i) * 90, SSRC: 0x1234}, Payload: pl}
+		for try := 0; ; try++ {
+			var fl []int
+			h.mu.Lock()
+			h.curFull = &fl
+			h.mu.Unlock()
+			werr := stream.WritePacketRTP(desc.Medias[0], pkt)
+			h.mu.Lock()
+			h.curFull = nil
+			h.mu.Unlock()
+			if werr == nil && len(fl) == 0 {
+				break
+			}
+			full = true
+			if try > 2000 {
+				stuckFull = true // the reader has stopped reading: its verdict (below) says why
+				break
+			}
+			time.Sleep(200 * time.Microsecond)
+		}
+		if stuckFull {
+			break
+		}
+		accepted++
+		sent = append(sent, seq)
+		seq++
+	}
+	_ = full
+	// drain: wait until the reader has everything, has failed, or has not advanced for 5 s
+	var r res
+	got := false
+	last, lastProgress := framesSeen.Load(), time.Now()
+	for !got && framesSeen.Load() < int64(accepted) && time.Since(lastProgress) < 5*time.Second {
+		select {
+		case r = <-done:
+			got = true
+		case <-time.After(5 * time.Millisecond):
+			if cur := framesSeen.Load(); cur != last {
+				last, lastProgress = cur, time.Now()
+			}
+		}
+	}
+	close(stopKA)
+	nka := <-kaDone
+	if !got {
+		nc.Close() // ends the reader
+		r = <-done
+	}
+	ctx.Eval()
+	ctx.Kind("raw-keepalive")
+	ctx.Nontrivial(name)
+	ctx.Extra("raw_keepalive_"+scheme, map[string]any{"packets": accepted, "frames": r.frames, "keepalives": nka, "responses": r.responses})
+	if stuckFull && r.bad == "" {
+		ctx.Failf(-1, "scenario-step-failed", name, "the write queue stayed full for 2000 retries although the reader kept reading (%d frames)", r.frames)
+		return
+	}
+	if r.bad != "" {
+		ctx.Failf(-1, "tcp-frame-not-atomic", name, "%d packets, %d keep-alives answered: %s", accepted, r.responses, r.bad)
+		return
+	}
+	if r.frames != accepted {
+		ctx.Failf(-1, "tcp-missing", name, "raw reader: %d RTP frames arrived, %d packets were accepted by the stream (no queue-full outstanding); %d keep-alives", r.frames, accepted, nka)
+		return
+	}
+	for i := range sent {
+		if r.seqs[i] != sent[i] {
+			ctx.Failf(-1, "tcp-reorder", name, "raw reader: frame %d carries seq %d, packet %d written was seq %d", i, r.seqs[i], i, sent[i])
+			return
+		}
+	}
+	if nka < 20 {
+		ctx.Failf(-1, "scenario-step-failed", name, "only %d keep-alives were exchanged while %d packets flowed: the scenario did not exercise concurrent responses", nka, accepted)
+	}
+}
+
+func clipBytes(b []byte, n int) []byte {
+	if len(b) > n {
+		return b[:n]
+	}
+	return b
+}
+
 func main() {
 	ctx := hx.Start("pipeline")
 	defer ctx.Finish()
@@ -2399,6 +2704,13 @@ func main() {
 		}
 	}
 	malformed(ctx)
+	rawKeepalive(ctx, false, ctx.Rng.U64()%1000000007)
+	rawKeepalive(ctx, true, ctx.Rng.U64()%1000000007)
+	if ctx.Thorough {
+		for i := 0; i < 6; i++ {
+			rawKeepalive(ctx, i%2 == 1, ctx.Rng.U64()%1000000007)
+		}
+	}
 
 	n := ctx.Budget(16, 400)
 	if v := os.Getenv("PIPELINE_RUNS"); v != "" {
